@@ -44,6 +44,16 @@ BUILT = {
             "All arrival orders of signed transactions of two signers (nonces 0..3, P-1, P), duplicates, replacements, other chain id, undecodable RLP, EVM-invalid due transactions, inscription transactions in between, finalise, idle blocks up to the expiry edge (seeds with entries aged P-3 .. P blocks), reorg, clearCaches and commit, within the depth bounds; after every step: receipts per call = transactions appended with consecutive indexes, drains in nonce order with the parked transaction's own nonce, ignored / parked transactions produce no receipt, txpool_content / txpool_contentFrom equal the model's waiting set, eth_getTransactionCount equals the number of executed nonces, an error changes nothing.",
             "Bounded histories. The behaviour of waiting successors after an EVM-invalid due transaction is not prescribed by the statement: the model follows the code there and only the invariants are checked.",
             "DESIGN.md §4 C08, Appendix B"),
+    "C18": ("hist", "model_checking",
+            "explicit-state exploration of the real engine; in every boundary state the complete finite filter grid is compared with a reference filter",
+            "In every block-boundary state of every history within the bounds (blocks of 1-3 transactions emitting 0-4-topic logs from two contracts, empty blocks, commit, reorg) the complete grid address {none, A, B, absent} x topic arrays of length 0..3 (0..4 from the seed state) with each position in {null, t1, t2, [t1,t2]} x 16 ranges (default, single, widths 1..6, beyond head, too wide, reversed) is sent to eth_getLogs and compared, in order, with a 20-line reference filter over the receipts the indexer was handed; ranges wider than 6 blocks must be refused.",
+            "Bounded histories and a finite filter grid; null is read as 'no constraint at that position' (the statement's wording); reversed ranges are not prescribed and accepted either way.",
+            "DESIGN.md §4 C18"),
+    "C19": ("hist", "model_checking",
+            "explicit-state exploration of the real engine on three network configurations; context recorded by a hand-assembled probe contract and read back",
+            "Every history within the bounds over block parameters (timestamps 0, 2^32, 2^64-1; explicit and server-generated hashes), inscription calls by two senders, signed transactions executed directly and parked-then-drained, deposits / withdrawals, 1 and 255 idle blocks, commit and reorg, on regtest (Prague), signet and mainnet (Cancun at low heights): the probe contract's record of NUMBER, TIMESTAMP, PREVRANDAO, CHAINID, BASEFEE, GASPRICE, COINBASE, ORIGIN, CALLER, BLOCKHASH(n-1, n-2, n-256, n-257) and the answer of the current-txid helper must equal what the harness supplied for that very transaction (for a drained transaction: the draining block's context and its own txid); the helper must not exist before Prague; deposits / withdrawals execute as the indexer address.",
+            "Bounded histories. The zero transaction id of deposits / withdrawals is not observable from contract code the harness controls and is not checked.",
+            "DESIGN.md §4 C19"),
 }
 
 NOT_BUILT_REASON = "check not built yet in this round (planned in DESIGN.md §4); nothing is claimed for it"
